@@ -298,8 +298,13 @@ class MessageManager(interfaces.TokenInterface, interfaces.MessageManager):
             )
 
         # first iteration is sure to happen, others happen only if the enqueued
-        # messages were NONs
-        while not any(r == remote for r, mid in self._active_exchanges.keys()):
+        # messages were NONs -- or if the transport refused the released
+        # message from inside send(): dispatch_error has then already dropped
+        # the backlog (and failed the requests), and there is nothing to
+        # continue with
+        while remote in self._backlogs and not any(
+            r == remote for r, mid in self._active_exchanges.keys()
+        ):
             if self._backlogs[remote] != []:
                 next_message, messageerror_monitor = self._backlogs[remote].pop(0)
                 self._send_initially(next_message, messageerror_monitor)
